@@ -430,7 +430,7 @@ fn check_queries(a: &Side, b: &Side, c: &Case, label: &str, key: &str, seen: &BT
 pub fn run(ctx: &mut RunCtx) {
     ctx.assume("equality semantics of the model answer: openCypher 9 (1 = 1.0 true, null and NaN equal nothing, different kinds unequal); integers are kept below 2^52 in magnitude near floats so that C23's numeric-comparison questions do not decide this check");
     ctx.assume("both databases receive the same storage API calls (hist::exec_tx); the only difference is one Db::create_index call");
-    let cases = ctx.tier.pick(6000, 150_000);
+    let cases = ctx.tier.pick(18_000, 150_000);
     let max_ops = ctx.tier.pick(16, 28);
     // exclusions by construction for open findings
     let x_backfill = ctx.has_open("index-missing:no-backfill");
@@ -551,7 +551,7 @@ pub fn run(ctx: &mut RunCtx) {
         move || case(max_ops),
         test,
     );
-    let cy_cases = ctx.tier.pick(1500, 40_000);
+    let cy_cases = ctx.tier.pick(4500, 40_000);
     let cy_ops = ctx.tier.pick(10, 20);
     let test = move |c: &Case, obs: &mut Obs| test_mode(true, c, obs);
     ctx.explore(
